@@ -23,7 +23,10 @@ Definition call_of (x : c13_in) (i : tid) : call (D := value) :=
   | None => mkCall "" VNull
   end.
 
-Definition completion (n : nat) : list nat := flat_map (fun i => repeat i 9) (seq 0 n).
+(* two passes: in the first the holder of the lock (if the schedule stopped inside a critical
+   section) certainly finishes, in the second nobody is blocked any more *)
+Definition completion (n : nat) : list nat :=
+  let pass := flat_map (fun i => repeat i 9) (seq 0 n) in (pass ++ pass)%list.
 
 Definition model_results (x : c13_in) : list (option (res value)) :=
   let n := List.length (i_calls x) in
